@@ -45,6 +45,7 @@ def api_ob(prog, name, cls, ctx, drv):
         r = drv()
         I, res, ops = r["I"], r["result"], r["operands"]
         bad = []
+        struct = []
         # (a) invariant of every returned object
         outs = [res] if isinstance(res, Obj) else ([x for x in res if isinstance(x, Obj)] if isinstance(res, (tuple, list)) else [])
         oracle = None
@@ -58,6 +59,7 @@ def api_ob(prog, name, cls, ctx, drv):
         for o in outs:
             for fld, d in object_invariant(prog, o, f"{name} result: ", oracle):
                 bad.append(f"result {o.cls}: {fld} violated: {d}")
+                struct.append((f"result {o.cls}: {fld}", [tuple(q) for q in d]))
         # (b) operands: only cache-populating writes, and the invariant still holds afterwards
         if not r.get("mutator"):
             bad += operand_write_violations(I, 0, []) or []
@@ -75,8 +77,12 @@ def api_ob(prog, name, cls, ctx, drv):
         for tag, o in ops.items():
             for fld, d in object_invariant(prog, o, f"{name} operand {tag}: "):
                 bad.append(f"operand '{tag}' ({o.cls}) after the call: {fld} violated: {d}")
+                struct.append((f"operand {tag}: {fld}", [tuple(q) for q in d]))
         if bad:
-            raise Refuted("; ".join(str(b)[:300] for b in bad[:3]), None, [str(b)[:600] for b in bad[:6]])
+            for b in bad:
+                if "writes non-cache field" in str(b):
+                    struct.append(("write", str(b).split(" at ")[0]))
+            raise Refuted("; ".join(str(b)[:300] for b in bad[:3]), None, [str(b)[:600] for b in bad[:6]], sigdata=struct)
         return [], dict(funcs=funcs_of(I), objects=len(outs))
     return Ob(f"invariant/{name}/{cls}/{ctx}", run,
               "returned objects satisfy Sigma*Lambda=I, ln_det_Sigma=-ln_det_Lambda=LnDet, mu=Sigma nu, lnZ=Gaussian normaliser (given invariant operands: induction over histories); operands are written only in empty cache fields and stay invariant",
